@@ -125,6 +125,23 @@ def explore(res, rng, n, exhaustive=None):
     res.samples += [{'history': h, 'scale_2^-s': s} for h, s in cases[:3]]
 
 
+def constant_history(res):
+    """a constant history starts and ends at its global maximum: rainflow reports a zero-range half cycle, the others nothing"""
+    core.import_impl()
+    from ffpack import lcc
+    for h in ([5.0, 5.0, 5.0, 5.0], [0.0, 0.0]):
+        res.evaluations += 1
+        res.stat('constant_history')
+        try:
+            ts = [f(list(h), aggregate=True) for f in (lcc.astmRainflowCounting, lcc.astmRangePairCounting, lcc.astmRainflowRepeatHistoryCounting)]
+        except Exception as e:  # noqa
+            res.failures.append({'signature': 'C04:closed:constant-history:raised', 'clause': 'a counter raised on a constant history ' + repr(e)[:80], 'input': h})
+            continue
+        if not (ts[0] == ts[1] == ts[2]):
+            res.failures.append({'signature': 'C04:closed:constant-history', 'clause': 'closed history: rainflow / range-pair / repeating tables differ',
+                                 'input': h, 'impl_output': ts})
+
+
 def run(tier, seed):
     res = core.Result(PID, tier, seed)
     res.rule = ('random tie-rich histories: as they are (clauses d,e,f), closed at a global extreme (a,b), closed into a period '
@@ -133,6 +150,7 @@ def run(tier, seed):
     n = 1500 if tier == 'quick' else 30000
     ex = (6, 4) if tier == 'quick' else (8, 5)
     explore(res, random.Random(seed), n, exhaustive=ex)
+    constant_history(res)
     res.notes.append('all histories of length <= %d over %d values enumerated in addition (a test)' % ex)
     if res.proof_problems and not res.failures:
         explore(res, random.Random(seed + 7919), 4 * n)
